@@ -72,15 +72,57 @@ func runSchedJob(c *Ctl, job *Job, idx int, res *RunResult) {
 		}
 		c.Counters["systematic_shape"] = world%len(dagShapes) + 1
 	}
+	shape := ""
+	if world >= len(dagShapes)*2 {
+		switch world % 16 {
+		case 5:
+			shape = "wide-nested"
+		case 11:
+			// one pipeline nested by two stages, failures inside it likely: the second nesting stage
+			// often starts when the nested pipeline has already been run by the first
+			gen.NestProb, gen.SharedNestProb, gen.FailProb = 100, 100, 45
+			c.Count("shared_nested_worlds")
+		}
+	}
 	prof.Gen = gen
 	if !c.Ch.replaying {
 		c.Ch.Reseed(seedFor(job.Base^0x5eed0001, world))
 	}
-	g := GenGraph(c.Ch, gen, "", 0)
+	var g *GraphSpec
+	if shape == "wide-nested" {
+		g = GenWideNested(c.Ch, gen)
+		c.Count("wide_nested_worlds")
+	} else {
+		g = GenGraph(c.Ch, gen, "", 0)
+	}
 	if !c.Ch.replaying {
 		c.Ch.Reseed(seedFor(job.Base^0x5eed0002, sched))
 	}
 	res.Sample = map[string]interface{}{"world": g.String(), "world_index": world}
 	res.WorldIdx = world
 	RunSchedWorld(c, prof, g, res)
+}
+
+// GenWideNested: many stages that each nest a pipeline of their own, mostly independent of each
+// other, so that 8..12 nested pipelines are in flight together (plus a few plain stages).
+func GenWideNested(ch *Choices, p SchedGenParams) *GraphSpec {
+	g := &GraphSpec{Name: "root"}
+	n := ch.Range(8, 12, "n-nesting")
+	inner := p
+	inner.MaxDepth = 0
+	for i := 0; i < n; i++ {
+		s := &StageSpec{Name: string(rune('a' + i))}
+		if i > 0 && ch.Bool(1, 8, "edge") {
+			s.Deps = []string{g.Stages[ch.Choose(i, "dep")].Name}
+		}
+		if ch.Bool(1, 6, "plain") {
+			s.Fail = ch.Bool(p.FailProb, 100, "fail")
+			s.Allow = ch.Bool(p.AllowProb, 100, "allow")
+		} else {
+			s.Nested = GenGraph(ch, inner, s.Name+".", 1)
+			s.Allow = ch.Bool(p.AllowProb, 100, "allow")
+		}
+		g.Stages = append(g.Stages, s)
+	}
+	return g
 }
